@@ -54,7 +54,7 @@ def g_case(draw, allow_var=True, max_rows=None):
         rel = None
         alpha = gen.choice(draw, [0.0, 1.0, 0.5, draw(gen.st.floats(0, 1))])
     c = {"prior": prior, "X": X, "upd": [bool(u) for u in upd], "relevance": rel, "alpha": float(alpha),
-         "starve": bool(starve), "count_floor": gen.choice(draw, [EPS, EPS, 1e-6]), "scales": scales}
+         "starve": bool(starve), "count_floor": gen.choice(draw, [EPS, EPS, 1e-6, 1e-2, 0.3]), "scales": scales}
     c["how"] = gen.presentation_for(draw, c)
     return c
 
@@ -137,6 +137,12 @@ def c_step(ctx, case):
     tiny = bool(((s["n"] >= case["count_floor"]) & (s["n"] < 1e-6)).any())
     if tiny and (upd[0] or upd[1]):
         ctx.discard("component with 0 < n < 1e-6 (E_c[x] is 0/0-conditioned)")
+    if (np.abs(s["n"] / case["count_floor"] - 1) < 1e-6).any():
+        ctx.discard("a responsibility mass within 1e-6 of the count floor (evidence / no evidence is a switch there)")
+    if case["count_floor"] > 1e-6:
+        ctx.event("count floor %g" % case["count_floor"])
+        if ((s["n"] >= case["count_floor"]) & (s["n"] < case["count_floor"] * X.shape[0])).any():
+            ctx.event("component with count floor <= n < floor * t")
     w, mu, var = sut.params_of(g)
     sc = float(max(np.abs(X).max(), np.abs(p["means"]).max()))
     ctx.close(w, want[0], "adapted weights", rtol=1e-9, atol=1e-13)
@@ -161,8 +167,8 @@ def c_limits(ctx, case):
     p, X, upd = case["prior"], case["X"], case["upd"]
     prior_t = (p["weights"], p["means"], p["variances"])
     s = ref.gmm_stats(X, *prior_t)
-    if (s["n"] < 1e-3).any():
-        ctx.discard("a component has (almost) no evidence: the ML limit is undefined for it")
+    if (s["n"] < max(1e-3, float(case["count_floor"]) * (1 + 1e-6))).any():
+        ctx.discard("a component has (almost) no evidence, or less than the count floor: the ML limit is undefined for it")
     ctx.note(any(upd) and p["C"] >= 2, "upd:%d%d%d" % tuple(int(u) for u in upd))
     sc = float(max(np.abs(X).max(), np.abs(p["means"]).max()))
     # r -> infinity
@@ -206,7 +212,14 @@ def c_pen(ctx, case):
     p, X, K, r = case["prior"], case["X"], case["K"], case["relevance"]
     _, g = map_machine(case, 1)
     vals = [ref.map_penalised_ll(X, *sut.params_of(g), p["means"], r)]
+    cf = float(case["count_floor"])
     for _ in range(K):
+        if cf > 1e-6:
+            n_now = ref.gmm_stats(X, *sut.params_of(g))["n"]
+            if ((n_now > 1e-9) & (n_now < cf * (1 + 1e-6))).any():
+                # a component with some evidence, but less than the configured count floor, is left at the prior by
+                # design: that step is not the exact maximiser, the monotonicity statement does not cover it
+                ctx.discard("count floor active (a component with evidence below the configured floor)")
         g.fit(X)
         vals.append(ref.map_penalised_ll(X, *sut.params_of(g), p["means"], r))
     inc = np.diff(vals)
